@@ -287,11 +287,12 @@ theorem fwriteFrom_unbuf_record (f : FuseW) (w : World) (src : Script) (count : 
   have hnb : ¬ (f.buffered = true) := by rw [hb]; simp
   unfold FuseW.writeFrom at h ⊢
   cases hc : f.checkAvail count with
-  | error e => cases h
+  | error e => rw [hc] at h; cases h
   | ok u =>
+    rw [hc] at h
     simp only at h ⊢
     rcases hr : src.readVectored w [⟨f.region, f.base + f.len, count⟩] at_ with ⟨res, w1, s1⟩
-    rw [hr] at h ffd ⊢
+    rw [hr] at h ffd
     simp only at ffd
     cases res with
     | error e => cases h
@@ -342,7 +343,7 @@ theorem fuse_unbuffered (f : FuseW) (w : World) (hb : f.buffered = false) (hl : 
     simp only []
     rw [if_neg hnb]
     simp only [he, Bool.false_eq_true, if_false, hfl, List.nil_append]
-    refine ⟨rfl, ?_, ?_⟩
+    refine ⟨trivial, ?_, ?_⟩
     · unfold World.fdWritev; split <;> simp_all
     · unfold World.fdWritev; split <;> rfl
   · intro src count at_ n hn
